@@ -5,7 +5,6 @@
 import CnvVerif.Model.Fix
 import CnvVerif.Lemmas.Fix
 import CnvVerif.Lemmas.FixAlign
-import CnvVerif.Lemmas.SrcEdge
 namespace CnvVerif.C04
 open CnvVerif
 
@@ -130,10 +129,5 @@ theorem fix_class_rejects_missing_or_duplicated (samp : List SRow) (ref : List R
 example : edgeLoss 100 250 = 250 / 200 - (150 : Rat) ^ 2 / (2 * 250 * 100) := by decide +kernel
 example : weightOf true (1/2) 10 10 (1/100) = Generated.WEIGHT_REF_EMPHASIS * (3/4) + (1 - Generated.WEIGHT_REF_EMPHASIS) * (99/100) := by
   decide +kernel
-
-/-- the model's edge-bias formulas ARE the expressions `edge_losses` / `edge_gains` compute (read elementwise) -/
-theorem edge_formulas_are_the_source (t g i : Rat) :
-    edgeLoss t i = Generated.src_edge_losses t i ∧ edgeGain t g i = Generated.src_edge_gains t g i :=
-  ⟨Src.edgeLoss_is_source t i, Src.edgeGain_is_source t g i⟩
 
 end CnvVerif.C04
